@@ -51,3 +51,36 @@ Print Assumptions C09_encoder_follows_layout.
 Theorem C09_decoder_names_are_encoder_names : map (fun p => (fst p, fst (snd p))) encoder_probes = decoder_fields.
 Proof. exact layout_names_agree. Qed.
 Print Assumptions C09_decoder_names_are_encoder_names.
+
+(* ---- the JSON side of the text layer, proved at the level of one string (JsonString.v: byte-level models of encoding/json's
+   string escaping and of the yaml.v2-derived reader + double-quoted-scalar scanner that reads every Spec file, .json included;
+   both tied to the real code on every swept string by the CaseStr cases of Judge09).  For EVERY valid UTF-8 string outside
+   the two known-finding classes the literal written by json.Marshal is scanned back to the same bytes ---- *)
+From CDI Require Import JsonString JsonStringProofs.
+Theorem C09_json_string_layer : forall s,
+  valid_utf8 s = true -> has_c1 s = false -> has_nel s = false -> yaml_dq_scan (json_escape s) = Some s.
+Proof. exact json_string_layer. Qed.
+Print Assumptions C09_json_string_layer.
+(* the two hypotheses are needed — the known findings C09/json-c1-controls and C09/json-nel are defects of the faithful model too:
+   a string with U+007F (U+0080..U+009F except U+0085, U+FFFE, U+FFFF: c1_witnesses) makes the document unreadable ... *)
+Theorem C09_json_string_layer_c1_refuted :
+  exists s, valid_utf8 s = true /\ has_c1 s = true /\ has_nel s = false /\ yaml_dq_scan (json_escape s) = None.
+Proof. exact json_string_layer_c1_refuted. Qed.
+Print Assumptions C09_json_string_layer_c1_refuted.
+(* ... and so does EVERY valid string of that class: has_c1 is exactly the set of strings whose .json file cannot be read back *)
+Theorem C09_json_string_layer_c1_unreadable : forall s,
+  valid_utf8 s = true -> has_c1 s = true -> yaml_dq_scan (json_escape s) = None.
+Proof. exact json_string_layer_c1_unreadable. Qed.
+Print Assumptions C09_json_string_layer_c1_unreadable.
+(* ... and U+0085 is read as a line break and folded into a space: the string comes back altered *)
+Theorem C09_json_string_layer_nel_refuted :
+  exists s s', valid_utf8 s = true /\ has_c1 s = false /\ has_nel s = true /\ yaml_dq_scan (json_escape s) = Some s' /\ s' <> s.
+Proof. exact json_string_layer_nel_refuted. Qed.
+Print Assumptions C09_json_string_layer_nel_refuted.
+(* the hypotheses are satisfiable by a string exercising every branch of the escaping: NUL, tab, newline, another control, quote,
+   backslash, < > &, blanks, U+2028, a two-, three- and four-byte character, U+FEFF, U+FFFD *)
+Example C09_json_string_example :
+  let s := String (ascii_of_N 0) (String (ascii_of_N 9) (String (ascii_of_N 10) (String (ascii_of_N 31) "")))
+           ++ " ""q"" \ </a> & " ++ utf8_encs [233%N; 8232%N; 26085%N; 65279%N; 65533%N; 128512%N] ++ "  " in
+  valid_utf8 s = true /\ has_c1 s = false /\ has_nel s = false /\ yaml_dq_scan (json_escape s) = Some s.
+Proof. vm_compute. repeat split; reflexivity. Qed.
